@@ -24,6 +24,9 @@ CONSTANTS Configs,          \* set of configurations explored from Init
           ExitStops,        \* TRUE: nothing moves once main has returned (the process exits); FALSE is
                             \* used by trace validation, where goroutines still log events for a few
                             \* microseconds after main's return
+          FirstErrorOnly,   \* TRUE: main stops listening on the error channels once it has seen an error (a design
+                            \* this code does NOT have; used as a self-test: with three input-side errors TLC must
+                            \* find the reader blocked for ever on its error post). FALSE: the code.
           DoneSendBlocking  \* TRUE: done flags are sent with blocking sends (the code before the
                             \* "fix: downstream-done flags are sent non-blockingly" commit);
                             \* FALSE: a send on a full done channel is dropped (the code now)
@@ -396,11 +399,11 @@ WDone == /\ Alive /\ wpc = "done" /\ dw = 0
 (* Main (pkg/stream/stream.go: Stream)                                     *)
 (***************************************************************************)
 \* main.gotInputErr
-MGotInputErr == /\ mpc = "select" /\ ie = 1
+MGotInputErr == /\ mpc = "select" /\ ie = 1 /\ (FirstErrorOnly => ret = "none")
                 /\ ie' = 0 /\ ret' = "err"
                 /\ UNCHANGED <<cfg, ch, dd, de, dw, mpc, flushed, fault>> /\ UL /\ UR /\ UV /\ UW
 \* main.gotDataErr
-MGotDataErr == /\ mpc = "select" /\ de = 1
+MGotDataErr == /\ mpc = "select" /\ de = 1 /\ (FirstErrorOnly => ret = "none")
                /\ de' = 0 /\ ret' = "err"
                /\ UNCHANGED <<cfg, ch, dd, ie, dw, mpc, flushed, fault>> /\ UL /\ UR /\ UV /\ UW
 \* main.gotDone
